@@ -64,6 +64,8 @@ Pre(q, k)   == SubSeq(q, 1, k)
 Front(q)    == SubSeq(q, 1, Len(q) - 1)
 PrefixOf(p, q) == Len(p) <= Len(q) /\ SubSeq(q, 1, Len(p)) = p
 Children(p) == {Append(p, d) : d \in Digits}
+\* TLCEval (here and below) only makes TLC evaluate a function / set constructor eagerly instead of
+\* re-evaluating its body on every application; it is the identity.
 Restrict(f, S) == TLCEval([x \in S |-> f[x]])
 
 \* ids / elements of contents c whose hash lies in range p (the skiplist scan from..to)
@@ -80,7 +82,7 @@ LeafHash(c, p) == IF N(c, p) = 0 THEN Nil ELSE [k |-> "L", s |-> Els(c, p), c |-
 NodeHash(hs) == [k |-> "D", s |-> {}, c |-> SelectSeq(hs, LAMBDA h : h # Nil)]
 
 (* ------------------------------ range-tree maintenance ------------------------------ *)
-\* t = [mat, div, cnt, hsh, dirty] is the hashRanges structure during a call, c the skiplist.
+\* t = [mat, div, cnt, hsh, dirty, ovf] is the hashRanges structure during a call, c the skiplist.
 
 \* makeBottomRanges(rng = p): create the DF children with counts and hashes from the skiplist
 \* (new objects replace stale map entries); a child above the threshold is divided at once.
